@@ -1,4 +1,7 @@
 import GrinVerif.Lemmas.DecSerEraseTx
+import GrinVerif.Lemmas.DecSerEraseSeg
+import GrinVerif.Lemmas.DecSerEraseMsg
+import GrinVerif.Props.C10Msg
 import GrinVerif.Props.C10
 /-! # C10 on the network path: both `Reader` implementations, the `Untrusted*` wrappers
 
@@ -55,6 +58,102 @@ theorem cut_through_check_is_duplicate_freeness (l : List Bytes) :
 theorem readers_agree_txBody (c : Cfg) (bs : Bytes) :
     (rTxBody .bin c bs).toExcept = (rTxBody .buf c bs).toExcept := by
   rw [txBody_erases, txBody_erases]
+
+/-! ## MMR segments and Merkle proofs (the record types of the two models differ by name only) -/
+
+/-- `SegmentProof::read` -/
+theorem segmentProof_erases (rd : Rdr) (bs : Bytes) :
+    (segmentProof rd bs).toExcept = some (GV.SerSeg.decSegProof bs) := erases_segmentProof rd bs
+
+/-- `Segment<T>::read`, generically in the leaf reader (any leaf type whose in-memory size is below
+2^40 bytes): the instrumented reader with its capped pre-allocations returns the plain decoder's
+segment, positions and all -/
+theorem segment_erases {α : Type} (rd : Rdr) {p : Dec α} {q : Parser α} (h : ∀ bs, (p bs).toExcept = some (q bs))
+    (sz : Nat) (hsz : sz ≤ 2^40) (bs : Bytes) :
+    ((segment rd p sz bs).map toSegment).toExcept = some (GV.SerSeg.decSegment q bs) :=
+  erases_segment rd h sz hsz bs
+
+theorem kernelSegment_erases (rd : Rdr) (c : Cfg) (bs : Bytes) :
+    ((segment rd (rTxKernel rd c) KERNEL_MEM bs).map toSegment).toExcept
+      = some (GV.SerSeg.decSegment (decTxKernel c) bs) :=
+  erases_segment rd (erases_rTxKernel rd c) _ (by unfold KERNEL_MEM; omega) bs
+
+theorem outputSegment_erases (rd : Rdr) (bs : Bytes) :
+    ((segment rd (rOutputId rd) OUTPUT_ID_MEM bs).map toSegment).toExcept
+      = some (GV.SerSeg.decSegment decOutputId bs) :=
+  erases_segment rd (erases_rOutputId rd) _ (by unfold OUTPUT_ID_MEM; omega) bs
+
+theorem rangeProofSegment_erases (rd : Rdr) (bs : Bytes) :
+    ((segment rd (rRangeProof rd) RANGE_PROOF_MEM bs).map toSegment).toExcept
+      = some (GV.SerSeg.decSegment decRangeProof bs) :=
+  erases_segment rd (erases_rRangeProof rd) _ (by unfold RANGE_PROOF_MEM; omega) bs
+
+/-- `MerkleProof::read` (pre-allocation capped at 64 hashes) -/
+theorem merkleProof_erases (rd : Rdr) (bs : Bytes) :
+    ((merkleProof rd bs).map toMerkleProof).toExcept = some (decMerkleProof bs) := erases_merkleProof rd bs
+
+/-- an output segment accepted through either reader is byte for byte its own encoding -/
+theorem outputSegment_network_canonical (rd : Rdr) {bs : Bytes} {s : GV.Dec.Segment OutputId} {r : Bytes} {n : Nat}
+    (hb : AllBytes bs) (h : segment rd (rOutputId rd) OUTPUT_ID_MEM bs = .ok s r n) :
+    bs = GV.SerSeg.encSegment encOutputId (toSegment s) ++ r := by
+  have he := outputSegment_erases rd bs
+  rw [h] at he
+  simp only [Outcome.map, Outcome.toExcept, Option.some.injEq] at he
+  exact (C10Msg.outputSegment_accepts_only_canonical hb he.symm).1
+
+/-! ## handshake and sync messages (`Model/Msg.lean` vs `Model/SerMsg.lean`) -/
+
+/-- the two models carry their own copy of the UTF-8 acceptor: they are the same function -/
+theorem utf8_acceptors_agree (bs : Bytes) : GV.Msg.validUtf8 bs = GV.SerMsg.validUtf8 bs := validUtf8_eq bs
+
+theorem peerAddr_erases (rd : Rdr) (bs : Bytes) :
+    ((GV.Msg.decPeerAddr rd bs).map toAddr).toExcept = some (GV.SerMsg.decPeerAddr bs) := erases_decPeerAddr rd bs
+theorem hand_erases (rd : Rdr) (bs : Bytes) :
+    ((GV.Msg.decHand rd bs).map toHand).toExcept = some (GV.SerMsg.decHand bs) := erases_decHand rd bs
+theorem shake_erases (rd : Rdr) (bs : Bytes) :
+    ((GV.Msg.decShake rd bs).map toShake).toExcept = some (GV.SerMsg.decShake bs) := erases_decShake rd bs
+theorem peerError_erases (rd : Rdr) (bs : Bytes) :
+    ((GV.Msg.decPeerError rd bs).map fun p => ({ code := p.1, message := p.2 } : GV.SerMsg.PeerError)).toExcept
+      = some (GV.SerMsg.decPeerError bs) := erases_decPeerError rd bs
+
+/-- every body `decode_message` reads with a decoder of `msg.rs`: Ping / Pong, the hash bodies
+(GetBlock, GetCompactBlock, GetTransaction, TransactionKernel), GetHeaders (Locator), GetPeerAddrs,
+PeerAddrs, TxHashSetRequest, TxHashSetArchive, the four segment requests -/
+theorem pingPong_erases {P : Type} (bs : Bytes) :
+    ((GV.Msg.decPingPong (P := P) bs).map toBodyV).toExcept = some (wrap .pingPong GV.SerMsg.decPingPong bs) :=
+  erases_body_pingPong bs
+theorem hashBody_erases {P : Type} (rd : Rdr) (bs : Bytes) :
+    ((GV.Msg.decHashBody (P := P) rd bs).map toBodyV).toExcept = some (wrap .hash decHash bs) :=
+  erases_body_hash rd bs
+theorem locator_erases {P : Type} (rd : Rdr) (bs : Bytes) :
+    ((GV.Msg.decLocator (P := P) rd bs).map toBodyV).toExcept = some (wrap .locator GV.SerMsg.decLocator bs) :=
+  erases_body_locator rd bs
+theorem getPeerAddrs_erases {P : Type} (bs : Bytes) :
+    ((GV.Msg.decGetPeerAddrs (P := P) bs).map toBodyV).toExcept
+      = some (wrap .getPeerAddrs GV.SerMsg.decGetPeerAddrs bs) := erases_body_getPeerAddrs bs
+theorem peerAddrs_erases {P : Type} (rd : Rdr) (bs : Bytes) :
+    ((GV.Msg.decPeerAddrs (P := P) rd bs).map toBodyV).toExcept
+      = some (wrap .peerAddrs GV.SerMsg.decPeerAddrs bs) := erases_body_peerAddrs rd bs
+theorem txHashSetRequest_erases {P : Type} (rd : Rdr) (bs : Bytes) :
+    ((GV.Msg.decTxHashSetRequest (P := P) rd bs).map toBodyV).toExcept
+      = some (wrap .txHashSetRequest GV.SerMsg.decTxHashSetRequest bs) := erases_body_txHashSetRequest rd bs
+theorem txHashSetArchive_erases {P : Type} (rd : Rdr) (bs : Bytes) :
+    ((GV.Msg.decTxHashSetArchive (P := P) rd bs).map toBodyV).toExcept
+      = some (wrap .txHashSetArchive GV.SerMsg.decTxHashSetArchive bs) := erases_body_txHashSetArchive rd bs
+theorem segmentRequest_erases {P : Type} (rd : Rdr) (bs : Bytes) :
+    ((GV.Msg.decSegmentRequest (P := P) rd bs).map toBodyV).toExcept
+      = some (wrap .segmentRequest GV.SerMsg.decSegmentRequest bs) := erases_body_segmentRequest rd bs
+/-- `BanReason` through the `BinReader`; through the `BufReader` a body shorter than four bytes leaves
+a different rest (the failed `read_i32` is swallowed), which is why it is excluded everywhere else -/
+theorem banReason_erases_bin {P : Type} (bs : Bytes) :
+    ((GV.Msg.decBanReason (P := P) .bin bs).map toBodyV).toExcept
+      = some (wrap .banReason GV.SerMsg.decBanReason bs) := erases_body_banReason_bin bs
+
+/-- a `Hand` written by the plain model comes back from either reader of the instrumented one -/
+theorem hand_network_roundtrip (rd : Rdr) (h : GV.SerMsg.Hand) (hwf : h.WF) (rest : Bytes) :
+    ((GV.Msg.decHand rd (GV.SerMsg.encHand h ++ rest)).map toHand).toExcept
+      = some (.ok (h.norm, rest)) := by
+  rw [hand_erases, C10Msg.hand_roundtrip h hwf rest]
 
 /-! ## the wrappers only refuse more -/
 
